@@ -83,6 +83,8 @@ def run(chk, replay=None):
                         for chan in ('file', 'gz', 'stdin'):
                             for outc in ('stdout', 'ofile'):
                                 o = os.path.join(d, 'out_%s_%s_%d' % (chan, outc, rep))
+                                if outc == 'ofile' and rep == 1:
+                                    open(o, 'wb').write(b'{"stale":"line left by an earlier, longer run into the same --outputFile"}\n' * 300)
                                 args = ['redact'] + cfg.cli_flags() + ([f] if chan == 'file' else [g] if chan == 'gz' else []) + (['-o', o] if outc == 'ofile' else [])
                                 rc, so, se = streamlib.cli_run(args, stdin_bytes=(data if chan == 'stdin' else None))
                                 got = open(o, 'rb').read() if outc == 'ofile' and os.path.exists(o) else so
